@@ -342,7 +342,13 @@ fn error_paths(ctx: &Ctx) {
     let dir = scratch();
     let arr = Array3::<f64>::from_shape_fn((2, 3, 2), |(i, j, k)| coded(i, j, k));
     let t = Tensor::<NdArray<f32>, 3>::from_data(TensorData::new((0..12).map(|x| x as f32).collect::<Vec<_>>(), [2, 3, 2]), &Default::default());
-    let targets = [("missing-directory", format!("{dir}/no/such/dir/out.bin")), ("path-is-a-directory", dir.clone()), ("empty-path", String::new())];
+    let mut targets = vec![("missing-directory", format!("{dir}/no/such/dir/out.bin")), ("path-is-a-directory", dir.clone()), ("empty-path", String::new())];
+    if std::path::Path::new("/dev/full").exists() {
+        // opens fine, every write fails (device full): a small payload only fails at the final flush
+        targets.push(("device-full", "/dev/full".to_string()));
+    } else {
+        ctx.outcome("error-path:/dev/full not available (skipped)", 1);
+    }
     for (what, path) in targets.iter() {
         let case = json!({"error_path": what, "path": path});
         let mut chk = |name: &str, r: Result<Result<(), String>, String>| {
